@@ -650,6 +650,11 @@ class TypesPlugin:
         return ax
 
     def v_eq(self, eng, a, b, st):
+        from .values import VSetStr
+        for x, y in ((a, b), (b, a)):
+            if isinstance(x, VEmptySet) and isinstance(y, VSetStr):
+                # a fresh set() compared with a set of strings
+                return y.t == z3.K(so.S, z3.BoolVal(False))
         if isinstance(a, (VTySet, VEmptySet)) or isinstance(
                 b, (VTySet, VEmptySet)):
             # "collection join": recognize() returns the list [Any] on one
